@@ -121,7 +121,11 @@ def run_history(chooser, steps):
                 sent = [w for p in ports for w in p.write_attempts][pre_writes:]
                 last = sent[-1].decode("ascii", "replace") if sent else ""
                 name = last.split(",")[0].strip().lower()
-                if raised and name not in ("r", "rb", "bl"):
+                # (the exemption is command()'s and the reboot / bootload helpers': a *query* by
+                # one of these names gets no special treatment - its failure is recorded like
+                # any other query's, C05)
+                exempt = name in ("r", "rb", "bl") and method != "query"
+                if raised and not exempt:
                     if exc is not None:
                         viols.append((f"escaped:{method}", f"{where}{desc}: the port raised "
                                       f"{raised[0][2]} and the request let {type(exc).__name__} "
@@ -131,13 +135,13 @@ def run_history(chooser, steps):
                                       f"{raised[0][2]} during {last!r} but no error was "
                                       f"recorded, later requests will transmit"))
                 elif refused and exc is None and obj.err is None and obj.port is not None \
-                        and name not in ("r", "rb", "bl"):
+                        and not exempt:
                     what = ", ".join(f"{k}={v}" for _t, k, v in fired)
                     viols.append((f"unlatched:{method}", f"{where}{desc}: the board's answer to "
                                   f"{last!r} was faulty ({what}) but no error was recorded, "
                                   f"later requests will transmit"))
                 elif refused and exc is not None and obj.err is None and obj.port is not None \
-                        and name not in ("r", "rb", "bl"):
+                        and not exempt:
                     what = ", ".join(f"{k}={v}" for _t, k, v in fired)
                     viols.append((f"escaped:{method}", f"{where}{desc}: the board's answer to "
                                   f"{last!r} was faulty ({what}); the request let "
